@@ -12,6 +12,9 @@ for f in sys.argv[1:]:
         if m:
             cur = m.group(1)
             res[cur] = {"missing": int(m.group(2)), "stable_checked": int(m.group(3)), "pyspark_run": m.group(4) == "yes", "missing_tests": []}
+            g = re.search(r" groups=(\S+)", line)
+            if g:
+                res[cur]["test_directories"] = g.group(1).split(",")
             continue
         m = re.match(r"SEED-TESTS (\S+) patch-failed", line)
         if m:
